@@ -16,6 +16,9 @@ require (
 	go.opentelemetry.io/otel/exporters/otlp/otlptrace/otlptracegrpc v1.35.0
 	go.opentelemetry.io/otel/exporters/otlp/otlptrace/otlptracehttp v1.35.0
 	go.opentelemetry.io/otel/exporters/prometheus v0.57.0
+	go.opentelemetry.io/otel/exporters/stdout/stdoutlog v0.11.0
+	go.opentelemetry.io/otel/exporters/stdout/stdoutmetric v1.35.0
+	go.opentelemetry.io/otel/exporters/stdout/stdouttrace v1.35.0
 	go.opentelemetry.io/otel/exporters/zipkin v1.35.0
 	go.opentelemetry.io/otel/log v0.11.0
 	go.opentelemetry.io/otel/metric v1.35.0
@@ -57,6 +60,9 @@ replace (
 	go.opentelemetry.io/otel/exporters/otlp/otlptrace/otlptracegrpc => /repo/exporters/otlp/otlptrace/otlptracegrpc
 	go.opentelemetry.io/otel/exporters/otlp/otlptrace/otlptracehttp => /repo/exporters/otlp/otlptrace/otlptracehttp
 	go.opentelemetry.io/otel/exporters/prometheus => /repo/exporters/prometheus
+	go.opentelemetry.io/otel/exporters/stdout/stdoutlog => /repo/exporters/stdout/stdoutlog
+	go.opentelemetry.io/otel/exporters/stdout/stdoutmetric => /repo/exporters/stdout/stdoutmetric
+	go.opentelemetry.io/otel/exporters/stdout/stdouttrace => /repo/exporters/stdout/stdouttrace
 	go.opentelemetry.io/otel/exporters/zipkin => /repo/exporters/zipkin
 	go.opentelemetry.io/otel/log => /repo/log
 	go.opentelemetry.io/otel/metric => /repo/metric
